@@ -255,6 +255,17 @@ def check_C05(ctx):
                       dict(kind="lx", case=dict(**{"in": e["in"], "out": [(w.split(":", 1) if ":" in w else [w, ""]) for w in e["want"]]})))
     ctx.notes["lexer_cases_replayed"] = n
     ctx.sample(read_line(path, min(n, 5000)))
+    # (2c) the symbol scanner: every token-class input up to L, replayed through the real ScanInput
+    path, n, r4 = tlc_cases(ctx, "Scanner_emit.cfg" if ctx.quick else "Scanner_emit_thorough.cfg", module="Scanner")
+    total_cases += n
+    outp = os.path.join(ctx.sub("scan"), "sc")
+    st = ctx.harness_json(["scan", "-in", path, "-out", outp])
+    if st["cases"] != n and st["mismatches"] == 0:
+        raise ToolError("scan replayed %d of %d cases" % (st["cases"], n))
+    for e in read_lines(outp + ".000.ndjson")[:20]:
+        ctx.violation("C05 scanner %s" % ("panic" if e["panic"] else "output"), "symbol scanner on %s: expected %s for=%s err=%s, got %s for=%s err=%s %s" % (
+            [x["t"] for x in e["in"]], e["want"], e["wantfor"], e["wanterr"], e["got"], e["gotfor"], e["goterr"], e["panic"]), dict(kind="scan", case=e["case"]))
+    ctx.notes["scanner_cases_replayed"] = n
     # (3) EQU graphs
     egp = os.path.join(ctx.sub("eg"), "eg")
     crashes = run_restartable(ctx, "equgraphs", [], egp)
@@ -323,6 +334,17 @@ def replay_lx(ctx, payload):
     ctx.cov["traces_validated_against_impl"] = 1
     if st["mismatches"]:
         ctx.violation(payload["signature"], payload["what"], dict(kind="lx", case=payload["case"]))
+
+
+def replay_scan(ctx, payload):
+    d = ctx.sub("replay")
+    src = os.path.join(d, "case.ndjson")
+    open(src, "w").write(json.dumps(payload["case"]) + "\n")
+    st = ctx.harness_json(["scan", "-in", src, "-out", os.path.join(d, "o")])
+    ctx.cov["evaluations"] = 1
+    ctx.cov["traces_validated_against_impl"] = 1
+    if st["mismatches"]:
+        ctx.violation(payload["signature"], payload["what"], dict(kind="scan", case=payload["case"]))
 
 
 def replay_fx(ctx, payload):
